@@ -3728,4 +3728,771 @@ theorem copyLike_source (w : World) (t s : Nat) (w' : World) (hsc : Scoped w) (h
         exact fin w1 v3 v4 v5 v6 v7 v8 (by rw [(matCopyFromMat_spec _ _ _ _ _ _ _ h1).cfs])
 
 
+
+/-- "the row object of every phase the indexer had is still the row object of that phase" -/
+def RowKeep (w w' : World) (tim : Nat) (ps : List Ph) (a : Nat) : Prop :=
+  ∀ p k, ps.idxOf? p = some k →
+    ∃ ps' k', w'.imols tim = .mat ps' a ∧ ps'.idxOf? p = some k' ∧ (w'.arrs a)[k']? = (w.arrs a)[k]?
+
+/-- `_expand_phases` keeps, for every phase the indexer already had, the same row object -/
+theorem expand_rowKeep (w : World) (tim : Nat) (other ps : List Ph) (a : Nat) (hm : w.imols tim = .mat ps a)
+    (hlen : (w.arrs a).length = ps.length) : RowKeep w (w.expand tim other) tim ps a := by
+  intro p k hk
+  have hkl := idxOf?_lt ps p k hk
+  unfold World.expand
+  simp only [hm]
+  split
+  · exact ⟨ps, k, hm, hk, rfl⟩
+  · have hmem : p ∈ normPh (ps ++ other) := by
+      rw [mem_normPh]; simp [List.mem_of_getElem? hkl.2]
+    obtain ⟨k', hk'⟩ := idxOf?_some_of_mem _ _ hmem
+    have hk'l := idxOf?_lt _ _ _ hk'
+    refine ⟨_, k', by simp, hk', ?_⟩
+    simp only [setImol_arrs, setArr_arrs, upd_same, List.getElem?_map, hk'l.2, Option.map_some, hk]
+    have : k < (w.arrs a).length := by omega
+    simp [List.getD_eq_getElem?_getD, List.getElem?_eq_getElem this]
+
+theorem RowKeep.of_eq {w w' : World} {tim a : Nat} {ps : List Ph} (hm : w.imols tim = .mat ps a)
+    (hi : w'.imols = w.imols) (ha : w'.arrs = w.arrs) : RowKeep w w' tim ps a :=
+  fun _ k hk => ⟨ps, k, by rw [hi]; exact hm, hk, by rw [ha]⟩
+
+theorem matCopyFromChem_rowKeep (w : World) (same : Bool) (tim : Nat) (tpkg : List Nat) (sr : Nat) (sp : Ph)
+    (spkg : List Nat) (w' : World) (ps : List Ph) (a : Nat) (hm : w.imols tim = .mat ps a)
+    (hlen : (w.arrs a).length = ps.length)
+    (h : w.matCopyFromChem same tim tpkg sr sp spkg = .ok w') : RowKeep w w' tim ps a := by
+  unfold World.matCopyFromChem at h
+  simp only at h
+  generalize hw1 : w.clearRows (w.rowIdsOf tim) = w1 at h
+  have hm1 : w1.imols tim = .mat ps a := by rw [← hw1]; simpa using hm
+  have ha1 : w1.arrs = w.arrs := by rw [← hw1]; simp
+  have tail : ∀ w2 : World,
+      (match phIdx (w2.phasesOf tim) sp with
+        | none => Except.error Err.undefinedPhase
+        | some k =>
+          if (same || remapOk tpkg spkg (w2.rows sr)) = true then
+            Except.ok (w2.setRow ((w2.rowIdsOf tim).getD k tim) (w2.rows sr))
+          else Except.error Err.undefinedChemical) = Except.ok w' → w'.imols = w2.imols ∧ w'.arrs = w2.arrs := by
+    intro w2 h2
+    cases hk : phIdx (w2.phasesOf tim) sp with
+    | none => simp [hk] at h2
+    | some k =>
+      simp only [hk] at h2
+      by_cases hc : (same || remapOk tpkg spkg (w2.rows sr)) = true
+      · simp only [hc, if_true, Except.ok.injEq] at h2
+        subst h2; simp
+      · simp [hc] at h2
+  have hk1 : RowKeep w1 (if (phIdx (w1.phasesOf tim) sp).isNone then w1.expand tim [sp] else w1) tim ps a := by
+    split
+    · exact expand_rowKeep w1 tim [sp] ps a hm1 (by rw [ha1]; exact hlen)
+    · exact RowKeep.of_eq hm1 rfl rfl
+  generalize (if (phIdx (w1.phasesOf tim) sp).isNone then w1.expand tim [sp] else w1) = w2 at h hk1
+  obtain ⟨t1, t2⟩ := tail w2 h
+  intro p k hk
+  obtain ⟨ps', k', e1, e2, e3⟩ := hk1 p k hk
+  exact ⟨ps', k', by rw [t1]; exact e1, e2, by rw [t2, e3, ha1]⟩
+
+theorem matCopyFromMat_rowKeep (w : World) (same : Bool) (tim : Nat) (tpkg : List Nat) (sim : Nat)
+    (spkg : List Nat) (w' : World) (ps : List Ph) (a : Nat) (hm : w.imols tim = .mat ps a)
+    (hlen : (w.arrs a).length = ps.length)
+    (h : w.matCopyFromMat same tim tpkg sim spkg = .ok w') : RowKeep w w' tim ps a := by
+  have hp0 : w.phasesOf tim = ps := by simp [World.phasesOf, hm]
+  by_cases hpq : w.phasesOf tim = w.phasesOf sim
+  · obtain ⟨e1, e2, _⟩ := matCopyFromMat_struct_same w same tim tpkg sim spkg w' hpq h
+    exact RowKeep.of_eq hm e1 e2
+  · unfold World.matCopyFromMat at h
+    split at h
+    · cases h; exact RowKeep.of_eq hm rfl rfl
+    · simp only [hpq, if_false] at h
+      have hk1 : RowKeep w (if compatPh (w.phasesOf tim) (w.phasesOf sim) then w else w.expand tim (w.phasesOf sim))
+          tim ps a := by
+        split
+        · exact RowKeep.of_eq hm rfl rfl
+        · exact expand_rowKeep w tim _ ps a hm hlen
+      generalize (if compatPh (w.phasesOf tim) (w.phasesOf sim) then w else w.expand tim (w.phasesOf sim)) = w1
+        at h hk1
+      split at h
+      · obtain ⟨f1, f2, _⟩ := assignByPhase_fields _ _ _ _ _ w' h
+        intro p k hk
+        obtain ⟨ps', k', e1, e2, e3⟩ := hk1 p k hk
+        exact ⟨ps', k', by rw [f1]; simpa using e1, e2, by rw [f2]; simpa using e3⟩
+      · cases h
+
+
+/-! ### phase views follow their stream -/
+
+/-- stream `j` keeps its thermal-condition object and, for every phase, its row object -/
+def BindKeep (w w' : World) (j : Nat) : Prop :=
+  (w'.strs j).tc = (w.strs j).tc ∧ ∀ p r, w.rowOfPhase j p = some r → w'.rowOfPhase j p = some r
+
+theorem bindKeep_of_struct {w w' : World} (hsf : StructFrame w w') (hsc : Scoped w) (j : Nat) (hj : j < w.nS)
+    (hi : (w'.strs j).imol = (w.strs j).imol) (ht : (w'.strs j).tc = (w.strs j).tc) : BindKeep w w' j := by
+  refine ⟨ht, ?_⟩
+  intro p r hr
+  unfold World.rowOfPhase at hr ⊢
+  rw [hi, (hsf _ (hsc j hj _ (mem_fp_imol w j))).1]
+  cases hm : w.imols (w.strs j).imol with
+  | chem ph r' => simp [hm] at hr
+  | mat ps a =>
+    simp only [hm] at hr ⊢
+    rw [(hsf a (hsc j hj a (mem_fp_mat hm).1)).2]
+    exact hr
+
+theorem bindKeep_of_eq {w w' : World} (hi : w'.imols = w.imols) (ha : w'.arrs = w.arrs) (j : Nat)
+    (hs : (w'.strs j).imol = (w.strs j).imol) (ht : (w'.strs j).tc = (w.strs j).tc) : BindKeep w w' j := by
+  refine ⟨ht, ?_⟩
+  intro p r hr
+  simpa [World.rowOfPhase, hi, ha, hs] using hr
+
+/-- the streams whose binding an operation changes on purpose (their views are re-attached or dropped by
+`VWorld.after`), plus — the one situation left out — the proxy partners of a stream that is flow-linked -/
+def Rebound (w : World) (op : Op) (j : Nat) : Prop :=
+  match op with
+  | .unlink s => j = s
+  | .link t _ f _ _ => j = t ∨ (f = true ∧ (w.strs j).imol = (w.strs t).imol)
+  | .setPhase s _ => j = s
+  | .copyLike t _ => j = t ∧ w.isMat (w.strs t).imol = false
+  | _ => False
+
+theorem bindKeep_link (w : World) (t s : Nat) (f p tp : Bool) (w' : World) (h : w.link t s f p tp = .ok w')
+    (j : Nat) (hR : ¬ Rebound w (.link t s f p tp) j) : BindKeep w w' j := by
+  simp only [Rebound, not_or, not_and] at hR
+  obtain ⟨hjt, hf⟩ := hR
+  unfold World.link at h
+  have hslot : ∀ (c : Bool), ((if c then w.setStr t { w.strs t with tc := (w.strs s).tc } else w).strs j) = w.strs j := by
+    intro c; cases c
+    · rfl
+    · simp [upd_ne _ _ _ _ hjt]
+  have key : ∀ (c : Bool) (m : Imol),
+      ((w.strs j).imol = (w.strs t).imol → ∀ q, w.rowOfPhase j q ≠ none → m = w.imols (w.strs t).imol) →
+      BindKeep w ((if c then w.setStr t { w.strs t with tc := (w.strs s).tc } else w).setImol (w.strs t).imol m) j := by
+    intro c m hm
+    refine ⟨by simp [hslot c], ?_⟩
+    intro q r hr
+    have hne : w.rowOfPhase j q ≠ none := by rw [hr]; simp
+    unfold World.rowOfPhase at hr ⊢
+    simp only [setImol_strs, hslot c, setImol_imols, setImol_arrs]
+    have harr : (if c then w.setStr t { w.strs t with tc := (w.strs s).tc } else w).arrs = w.arrs := by cases c <;> rfl
+    have himol : (if c then w.setStr t { w.strs t with tc := (w.strs s).tc } else w).imols = w.imols := by cases c <;> rfl
+    rw [harr, himol]
+    by_cases he : (w.strs j).imol = (w.strs t).imol
+    · rw [he, upd_same, hm he q hne, ← he]; exact hr
+    · rw [upd_ne _ _ _ _ he]; exact hr
+  cases hmt : w.imols (w.strs t).imol with
+  | chem tph trow =>
+    cases hms : w.imols (w.strs s).imol with
+    | mat qs sa => simp [hmt, hms] at h
+    | chem sph srow =>
+      simp only [hmt, hms] at h
+      split at h
+      · cases h
+      · cases h
+        apply key
+        intro he q hne
+        exfalso; apply hne
+        simp [World.rowOfPhase, he, hmt]
+  | mat ps ta =>
+    cases hms : w.imols (w.strs s).imol with
+    | chem sph srow => simp [hmt, hms] at h
+    | mat qs sa =>
+      simp only [hmt, hms] at h
+      split at h
+      · cases h
+      · cases h
+        apply key
+        intro he q _
+        cases f
+        · simp [hmt]
+        · exact absurd he (hf rfl)
+
+
+theorem BindKeep.trans {w w1 w2 : World} {j : Nat} (h1 : BindKeep w w1 j) (h2 : BindKeep w1 w2 j) :
+    BindKeep w w2 j :=
+  ⟨h2.1.trans h1.1, fun p r hr => h2.2 p r (h1.2 p r hr)⟩
+
+theorem bindKeep_tcCopyLike (w1 : World) (t s j : Nat) : BindKeep w1 (w1.tcCopyLike t s) j :=
+  bindKeep_of_eq (by simp [World.tcCopyLike]) (by simp [World.tcCopyLike]) j (by simp [World.tcCopyLike])
+    (by simp [World.tcCopyLike])
+
+theorem bindKeep_of_imol_update {w w1 : World} {t a : Nat} {ps : List Ph}
+    (hm : w.imols (w.strs t).imol = .mat ps a) (hstrs : w1.strs = w.strs)
+    (hine : ∀ y, y ≠ (w.strs t).imol → w1.imols y = w.imols y) (hane : ∀ y, y ≠ a → w1.arrs y = w.arrs y)
+    (hrk : RowKeep w w1 (w.strs t).imol ps a)
+    (hcase : (w1.imols = w.imols ∧ w1.arrs = w.arrs) ∨ w.arrShared t = false) (j : Nat) (hj : j < w.nS) :
+    BindKeep w w1 j := by
+  rcases hcase with ⟨e1, e2⟩ | hns
+  · exact bindKeep_of_eq e1 e2 j (by rw [hstrs]) (by rw [hstrs])
+  · refine ⟨by rw [hstrs], ?_⟩
+    intro p r hr
+    unfold World.rowOfPhase at hr ⊢
+    rw [hstrs]
+    by_cases hjt : (w.strs j).imol = (w.strs t).imol
+    · rw [hjt] at hr ⊢
+      rw [hm] at hr
+      simp only at hr
+      cases hk : ps.idxOf? p with
+      | none => simp [hk] at hr
+      | some k =>
+        simp only [hk] at hr
+        obtain ⟨ps', k', e1, e2, e3⟩ := hrk p k hk
+        rw [e1]; simp only [e2, e3]; exact hr
+    · rw [hine _ hjt]
+      cases hmj : w.imols (w.strs j).imol with
+      | chem ph r' => simp [hmj] at hr
+      | mat qs b =>
+        simp only [hmj] at hr ⊢
+        rw [hane b (arrShared_false hm hns j hj hjt qs b hmj)]
+        exact hr
+
+theorem bindKeep_copyLike (w : World) (t s : Nat) (w' : World) (hsc : Scoped w) (hwf : WFAll w) (ht : t < w.nS)
+    (hs : s < w.nS) (h : w.copyLike t s = .ok w') (j : Nat) (hj : j < w.nS)
+    (hR : ¬ Rebound w (.copyLike t s) j) : BindKeep w w' j := by
+  simp only [Rebound, not_and] at hR
+  unfold World.copyLike at h
+  simp only at h
+  split at h
+  · cases h
+  · next hg =>
+    cases hmt : w.imols (w.strs t).imol with
+    | chem tph trow =>
+      have hjt : j ≠ t := fun e => hR e (by simp [World.isMat, hmt])
+      cases hms : w.imols (w.strs s).imol with
+      | chem sph srow =>
+        simp only [hmt, hms] at h
+        split at h
+        · cases h; exact bindKeep_tcCopyLike w t s j
+        · obtain ⟨w1, h1, rfl⟩ := ofExcept_bind_ok _ _ _ h
+          obtain ⟨_, f1, f2, f3, _⟩ := chemCopyLike_spec _ _ _ _ _ _ _ _ _ h1
+          exact (bindKeep_of_eq f1 f2 j (by rw [f3]) (by rw [f3])).trans (bindKeep_tcCopyLike w1 t s j)
+      | mat qs sa =>
+        simp only [hmt, hms] at h
+        split at h
+        · next q =>
+          obtain ⟨w1, h1, rfl⟩ := ofExcept_bind_ok _ _ _ h
+          obtain ⟨_, f1, f2, f3, _⟩ := chemCopyLike_spec _ _ _ _ _ _ _ _ _ h1
+          exact (bindKeep_of_eq (by rw [f1]; simp) (by rw [f2]; simp) j (by rw [f3]; simp)
+            (by rw [f3]; simp)).trans (bindKeep_tcCopyLike w1 t s j)
+        · obtain ⟨w3, h3, rfl⟩ := ofExcept_bind_ok _ _ _ h
+          refine BindKeep.trans ?_ (bindKeep_tcCopyLike w3 t s j)
+          have hws := hwf s hs
+          simp only [WFImol, hms] at hws
+          have hB := blankMat_spec w (normPh qs)
+          generalize w.blankMat (normPh qs) = b at h3 hB
+          obtain ⟨w1, im⟩ := b
+          simp only at h3 hB
+          have hSim : (w.strs s).imol < w.next := hsc s hs _ (mem_fp_imol w s)
+          have hph : (w1.setStr t { w.strs t with imol := im }).phasesOf im =
+              (w1.setStr t { w.strs t with imol := im }).phasesOf (w.strs s).imol := by
+            have e1 : (w1.setStr t { w.strs t with imol := im }).phasesOf im = normPh qs := by
+              have := hB.phases; simpa [World.phasesOf] using this
+            have e2 : w1.imols (w.strs s).imol = w.imols (w.strs s).imol :=
+              (hB.writes.agree _ hSim (fun h => h)).2.2.2.2.2
+            rw [e1]; simp [World.phasesOf, e2, hms, hws.1]
+          obtain ⟨g1, g2, g3, g4⟩ := matCopyFromMat_struct_same _ _ _ _ _ _ _ hph h3
+          have hsf : StructFrame w w3 := by
+            intro x hx
+            have := hB.writes.agree x hx (fun h => h)
+            exact ⟨by rw [g1]; simp; exact this.2.2.2.2.2, by rw [g2]; simp; exact this.2.2.2.2.1⟩
+          apply bindKeep_of_struct hsf hsc j hj
+          · rw [g3]; simp [upd_ne _ _ _ _ hjt, hB.strs]
+          · rw [g3]; simp [upd_ne _ _ _ _ hjt, hB.strs]
+    | mat ps ta =>
+      have hwt := hwf t ht
+      simp only [WFImol, hmt] at hwt
+      obtain ⟨hnp, hlen, hnd⟩ := hwt
+      have hlt : ∀ r ∈ w.arrs ta, r < w.next := fun r hr => hsc t ht r ((mem_fp_mat hmt).2 r hr)
+      have hpT : w.phasesOf (w.strs t).imol = ps := by simp [World.phasesOf, hmt]
+      cases hms : w.imols (w.strs s).imol with
+      | chem sph srow =>
+        simp only [hmt, hms] at h
+        obtain ⟨w1, h1, rfl⟩ := ofExcept_bind_ok _ _ _ h
+        refine BindKeep.trans ?_ (bindKeep_tcCopyLike w1 t s j)
+        obtain ⟨k1, k2, k3, k4, k5, k6⟩ := matCopyFromChem_wf w _ _ _ _ _ _ w1 ps ta hmt hnp hlen hnd hlt h1
+        have hrk := matCopyFromChem_rowKeep w _ _ _ _ _ _ w1 ps ta hmt hlen h1
+        apply bindKeep_of_imol_update hmt k2 k4 k5 hrk _ j hj
+        cases hx : phIdx ps (w.phs sph) with
+        | some k => exact Or.inl (k6 (by rw [hx]; simp))
+        | none =>
+          right
+          have hdiff : (w.phasesOf (w.strs t).imol != w.phasesOf (w.strs s).imol) = true := by
+            rw [hpT]; simp [World.phasesOf, hms]; exact phIdx_single_ne hx
+          simpa [hdiff] using hg
+      | mat qs sa =>
+        simp only [hmt, hms] at h
+        obtain ⟨w1, h1, rfl⟩ := ofExcept_bind_ok _ _ _ h
+        refine BindKeep.trans ?_ (bindKeep_tcCopyLike w1 t s j)
+        obtain ⟨k1, k2, k3, k4, k5, k6⟩ := matCopyFromMat_wf w _ _ _ _ _ w1 ps ta hmt hnp hlen hnd hlt h1
+        have hrk := matCopyFromMat_rowKeep w _ _ _ _ _ w1 ps ta hmt hlen h1
+        apply bindKeep_of_imol_update hmt k2 k4 k5 hrk _ j hj
+        by_cases hpq : ps = w.phasesOf (w.strs s).imol
+        · exact Or.inl (k6 hpq)
+        · right
+          have hdiff : (w.phasesOf (w.strs t).imol != w.phasesOf (w.strs s).imol) = true := by
+            rw [hpT]; simpa using hpq
+          simpa [hdiff] using hg
+
+
+theorem bindKeep_of_writes {w w' : World} {Ws : Nat → Prop} (hw : Writes w w' none' Ws) (hsc : Scoped w) (j : Nat)
+    (hj : j < w.nS) (hjs : ¬ Ws j) : BindKeep w w' j :=
+  bindKeep_of_struct (StructFrame.of_writes hw) hsc j hj (by rw [hw.strs j hj hjs]) (by rw [hw.strs j hj hjs])
+
+/-- Every operation keeps, for every stream it does not re-bind on purpose, the thermal-condition object and
+the row object of every phase. -/
+theorem bind_step (w : World) (op : Op) (w' : World) (hsc : Scoped w) (hwf : WFAll w)
+    (h : w.step op = .ok w') (j : Nat) (hj : j < w.nS) (hR : ¬ Rebound w op j) : BindKeep w w' j := by
+  have hall : (op.ids.all fun x => decide (x < w.nS)) = true := by
+    unfold World.step at h
+    split at h
+    · assumption
+    · cases h
+  have hids : ∀ i ∈ op.ids, i < w.nS := by simpa using hall
+  simp only [World.step, hall, if_true] at h
+  cases op with
+  | new a =>
+    simp only [World.exec] at h
+    cases hc : w.ctor a with
+    | error e => simp [hc, Res.ofExcept] at h
+    | ok p =>
+      simp [hc, Res.ofExcept] at h
+      subst h
+      exact bindKeep_of_writes (writes_ctor w a p.1 p.2 hc).1 hsc j hj (fun h => h)
+  | setFlow s p c v =>
+    simp only [World.exec] at h
+    cases hc : w.setFlow s p c v with
+    | error e => simp [hc, Res.ofExcept] at h
+    | ok w1 =>
+      simp [hc, Res.ofExcept] at h
+      subst h
+      unfold World.setFlow at hc
+      cases hm : w.imols (w.strs s).imol with
+      | chem ph r =>
+        simp only [hm] at hc
+        split at hc
+        · cases hc
+        · cases hc; exact bindKeep_of_eq rfl rfl j rfl rfl
+      | mat ps a =>
+        simp only [hm] at hc
+        split at hc
+        · cases hc
+        · split at hc
+          · cases hc
+          · cases hc; exact bindKeep_of_eq rfl rfl j rfl rfl
+  | setT s v => simp only [World.exec] at h; cases h; exact bindKeep_of_eq rfl rfl j rfl rfl
+  | setP s v => simp only [World.exec] at h; cases h; exact bindKeep_of_eq rfl rfl j rfl rfl
+  | setPhase s p =>
+    simp only [World.exec] at h; cases h
+    have hjs : j ≠ s := hR
+    cases hm : w.imols (w.strs s).imol with
+    | chem ph r =>
+      simp only [World.setPhase, hm]
+      exact bindKeep_of_eq rfl rfl j rfl rfl
+    | mat ps a =>
+      simp only [World.setPhase, hm]
+      exact bindKeep_of_writes ((writes_newPh w p).of_none.seq ((writes_newRow _ _).of_none.seq
+        ((writes_newImol _ _).of_none.seq ((writes_setStr _ s _).mono (fun x _ h => h.elim)
+        (fun i _ h => by intros; exact h))))) hsc j hj hjs
+  | empty s =>
+    simp only [World.exec] at h; cases h
+    exact bindKeep_of_eq (by simp [World.empty]) (by simp [World.empty]) j (by simp [World.empty])
+      (by simp [World.empty])
+  | setPrice s v =>
+    simp only [World.exec] at h; cases h
+    have e1 : ((w.setPrice s v).strs j).imol = (w.strs j).imol := by
+      by_cases hjs : j = s
+      · subst hjs; simp [World.setPrice]
+      · simp [World.setPrice, upd_ne _ _ _ _ hjs]
+    have e2 : ((w.setPrice s v).strs j).tc = (w.strs j).tc := by
+      by_cases hjs : j = s
+      · subst hjs; simp [World.setPrice]
+      · simp [World.setPrice, upd_ne _ _ _ _ hjs]
+    exact bindKeep_of_eq (w := w) (w' := w.setPrice s v) rfl rfl j e1 e2
+  | setCF s k v => simp only [World.exec] at h; cases h; exact bindKeep_of_eq rfl rfl j rfl rfl
+  | copy s => simp only [World.exec] at h; cases h; exact bindKeep_of_writes (writes_copy w s) hsc j hj (fun h => h)
+  | copyTo s pid pkg =>
+    simp only [World.exec] at h
+    cases hc : w.copyTo s pid pkg with
+    | error e => simp [hc, Res.ofExcept] at h
+    | ok p =>
+      simp [hc, Res.ofExcept] at h
+      subst h
+      have hs := hids s (by simp [Op.ids])
+      have := (spec_copyTo w s pid pkg p.1 p.2 hsc hs hc).writes
+      -- only new objects and the new stream are written
+      unfold World.copyTo at hc
+      simp only at hc
+      split at hc
+      · cases hc; exact bindKeep_of_writes (writes_copy w s) hsc j hj (fun h => h)
+      · split at hc
+        · cases hc
+          have hne : j ≠ (w.copy s).2 := by rw [(copy_fresh w s).1]; omega
+          refine (bindKeep_of_writes (writes_copy w s) hsc j hj (fun h => h)).trans ?_
+          show BindKeep (w.copy s).1 ((w.copy s).1.setStr (w.copy s).2 _) j
+          refine bindKeep_of_eq (w := (w.copy s).1) (w' := (w.copy s).1.setStr (w.copy s).2 _) rfl rfl j ?_ ?_
+          · simp [upd_ne _ _ _ _ hne]
+          · simp [upd_ne _ _ _ _ hne]
+        · cases hc
+  | copyLike t s =>
+    simp only [World.exec] at h
+    exact bindKeep_copyLike w t s w' hsc hwf (hids t (by simp [Op.ids])) (hids s (by simp [Op.ids])) h j hj hR
+  | copyTC t s => simp only [World.exec] at h; cases h; exact bindKeep_tcCopyLike w t s j
+  | link t s f p tp =>
+    simp only [World.exec] at h
+    exact bindKeep_link w t s f p tp w' h j hR
+  | unlink s =>
+    simp only [World.exec] at h; cases h
+    exact bindKeep_of_writes (writes_unlink w s) hsc j hj hR
+  | proxy s => simp only [World.exec] at h; cases h; exact bindKeep_of_writes (writes_proxy w s) hsc j hj (fun h => h)
+  | flowProxy s =>
+    simp only [World.exec] at h; cases h; exact bindKeep_of_writes (writes_flowProxy w s) hsc j hj (fun h => h)
+  | pickle s =>
+    simp only [World.exec] at h; cases h
+    exact bindKeep_of_writes (rebuild_spec w (w.pickleArgs s)).1 hsc j hj (fun h => h)
+
+
+/-- every view a stream has handed out is bound to the stream's current row object for its phase and to its
+current thermal-condition object; streams that do not exist yet have handed out nothing -/
+def VInv (vw : VWorld) : Prop :=
+  (∀ i, i < vw.w.nS → ∀ e ∈ vw.vdict i, vw.w.rowOfPhase i e.1 = some e.2.1 ∧ e.2.2 = (vw.w.strs i).tc) ∧
+  (∀ i, vw.w.nS ≤ i → vw.vdict i = [])
+
+/-- The situation that is left out: a stream is flow-linked to another one while a proxy partner of it
+(a different stream object holding the same indexer object) has handed out views. -/
+def AliasRelink (vw : VWorld) : VOp → Prop
+  | .op (.link t _ f _ _) =>
+    f = true ∧ ∃ j, j < vw.w.nS ∧ j ≠ t ∧ (vw.w.strs j).imol = (vw.w.strs t).imol ∧ vw.vdict j ≠ []
+  | _ => False
+
+theorem rowOfPhase_some {w : World} {i : Nat} {p : Ph} {r : Nat} (h : w.rowOfPhase i p = some r) :
+    ∃ ps a k, w.imols (w.strs i).imol = .mat ps a ∧ ps.idxOf? p = some k ∧ (w.arrs a)[k]? = some r := by
+  unfold World.rowOfPhase at h
+  cases hm : w.imols (w.strs i).imol with
+  | chem ph r' => simp [hm] at h
+  | mat ps a =>
+    simp only [hm] at h
+    cases hk : ps.idxOf? p with
+    | none => simp [hk] at h
+    | some k => simp only [hk] at h; exact ⟨ps, a, k, rfl, hk, h⟩
+
+theorem rowOfPhase_unlink (w : World) (s : Nat) (p : Ph) (r : Nat) (h : w.rowOfPhase s p = some r) :
+    ∃ r', (w.unlink s).rowOfPhase s p = some r' := by
+  obtain ⟨ps, a, k, hm, hk, hr⟩ := rowOfPhase_some h
+  have hkl : k < (w.arrs a).length := by
+    rcases Nat.lt_or_ge k (w.arrs a).length with h' | h'
+    · exact h'
+    · simp [List.getElem?_eq_none h'] at hr
+  simp only [World.unlink, World.rowOfPhase, setStr_strs, upd_same, setStr_imols, setStr_arrs, newTc_imols,
+    newTc_arrs]
+  unfold World.copyImol
+  simp only [hm]
+  simp [hk, newRows_ids, hkl]
+
+theorem vinv_reattach {vw : VWorld} {w' : World} {s : Nat} {rows : Bool}
+    (hrow : ∀ e ∈ vw.vdict s, ∃ r', w'.rowOfPhase s e.1 = some r' ∧ (rows = false → r' = e.2.1)) :
+    ∀ e ∈ reattachList w' s rows (vw.vdict s), w'.rowOfPhase s e.1 = some e.2.1 ∧ e.2.2 = (w'.strs s).tc := by
+  intro e he
+  simp only [reattachList, List.mem_map] at he
+  obtain ⟨e0, he0, rfl⟩ := he
+  obtain ⟨r', h1, h2⟩ := hrow e0 he0
+  refine ⟨?_, rfl⟩
+  cases rows
+  · simp [h1, h2 rfl]
+  · simp [h1]
+
+
+theorem rowOfPhase_link_target (w : World) (t s : Nat) (f p tp : Bool) (w' : World) (hws : WFImol w (w.strs s).imol)
+    (h : w.link t s f p tp = .ok w') (q : Ph) (r : Nat) (hr : w.rowOfPhase t q = some r) :
+    ∃ r', w'.rowOfPhase t q = some r' ∧ (f = false → r' = r) := by
+  obtain ⟨ps, ta, k, hmt, hk, hrk⟩ := rowOfPhase_some hr
+  unfold World.link at h
+  cases hms : w.imols (w.strs s).imol with
+  | chem sph srow => simp [hmt, hms] at h
+  | mat qs sa =>
+    simp only [hmt, hms] at h
+    split at h
+    · cases h
+    · next hdom =>
+      cases h
+      have himol : ∀ c : Bool, (((if c then w.setStr t { w.strs t with tc := (w.strs s).tc } else w).setImol
+          (w.strs t).imol (Imol.mat ps (if f then sa else ta))).strs t).imol = (w.strs t).imol := by
+        intro c; cases c <;> simp
+      have harr : ∀ c : Bool, ((if c then w.setStr t { w.strs t with tc := (w.strs s).tc } else w).setImol
+          (w.strs t).imol (Imol.mat ps (if f then sa else ta))).arrs = w.arrs := by
+        intro c; cases c <;> rfl
+      simp only [World.rowOfPhase, himol tp, setImol_imols, upd_same, hk, harr tp]
+      cases f
+      · exact ⟨r, by simpa using hrk, fun _ => rfl⟩
+      · simp only [WFImol, hms] at hws
+        have hpq : ps = qs := by simp at hdom; exact hdom.2
+        have hkl := (idxOf?_lt ps q k hk).1
+        have : k < (w.arrs sa).length := by rw [hws.2.1, ← hpq]; exact hkl
+        exact ⟨(w.arrs sa)[k], by simp [List.getElem?_eq_getElem this], fun h => by cases h⟩
+
+theorem link_target_tc (w : World) (t s : Nat) (f p tp : Bool) (w' : World) (h : w.link t s f p tp = .ok w') :
+    w'.isMat (w'.strs t).imol = w.isMat (w.strs t).imol ∧
+    ((tp = false ∧ f = false) → (w'.strs t).tc = (w.strs t).tc) := by
+  unfold World.link at h
+  cases hmt : w.imols (w.strs t).imol <;> cases hms : w.imols (w.strs s).imol <;> simp only [hmt, hms] at h
+  · split at h
+    · cases h
+    · cases h; cases tp <;> simp [World.isMat, hmt]
+  · cases h
+  · cases h
+  · split at h
+    · cases h
+    · cases h; cases tp <;> simp [World.isMat, hmt]
+
+/-- One operation keeps the views attached. -/
+theorem vinv_step (vw : VWorld) (op : VOp) (vw' : VWorld) (hsc : Scoped vw.w) (hwf : WFAll vw.w)
+    (hinv : VInv vw) (hna : ¬ AliasRelink vw op) (h : vw.step op = .ok vw') : VInv vw' := by
+  obtain ⟨hb, he⟩ := hinv
+  cases op with
+  | view i p =>
+    simp only [VWorld.step] at h
+    split at h
+    · next hi =>
+      cases hv : vw.view i p with
+      | none => simp [hv] at h
+      | some x =>
+        simp [hv] at h; subst h
+        unfold VWorld.view at hv
+        cases hr : vw.w.rowOfPhase i p with
+        | none => simp [hr] at hv
+        | some r =>
+          simp only [hr] at hv
+          split at hv
+          · cases hv; exact ⟨hb, he⟩
+          · cases hv
+            constructor
+            · intro k hk e hmem
+              by_cases hki : k = i
+              · subst hki
+                simp only [upd_same, List.mem_cons] at hmem
+                rcases hmem with rfl | hmem
+                · exact ⟨hr, rfl⟩
+                · exact hb k hk e hmem
+              · simp only [upd_ne _ _ _ _ hki] at hmem
+                exact hb k hk e hmem
+            · intro k hk
+              have : k ≠ i := by intro e; subst e; exact absurd hi (Nat.not_lt.mpr hk)
+              simp [upd_ne _ _ _ _ this, he k hk]
+    · cases h
+  | op o =>
+    simp only [VWorld.step] at h
+    cases hst : vw.w.step o with
+    | skip => simp [hst] at h
+    | err e => simp [hst] at h
+    | ok w' =>
+      simp [hst] at h; subst h
+      have hspec := step_spec vw.w o w' hsc hst
+      have hnS : vw.w.nS ≤ w'.nS := hspec.1.writes.nS
+      have hids := hspec.2
+      -- the dict of stream `i` after the operation, for streams that are not re-bound
+      have keep : ∀ i, i < vw.w.nS → ¬ Rebound vw.w o i → ∀ e ∈ vw.vdict i,
+          w'.rowOfPhase i e.1 = some e.2.1 ∧ e.2.2 = (w'.strs i).tc := by
+        intro i hi hR e hmem
+        obtain ⟨b1, b2⟩ := bind_step vw.w o w' hsc hwf hst i hi hR
+        obtain ⟨c1, c2⟩ := hb i hi e hmem
+        exact ⟨b2 _ _ c1, by rw [b1]; exact c2⟩
+      have chemEmpty : ∀ i, i < vw.w.nS → vw.w.isMat (vw.w.strs i).imol = false → vw.vdict i = [] := by
+        intro i hi hc
+        cases hl : vw.vdict i with
+        | nil => rfl
+        | cons e l =>
+          have := (hb i hi e (by rw [hl]; simp)).1
+          obtain ⟨ps, a, k, hm, _⟩ := rowOfPhase_some this
+          simp [World.isMat, hm] at hc
+      -- new streams have handed out nothing
+      have newEmpty : ∀ (vd : Nat → List (Ph × Nat × Nat)), (∀ i, vw.w.nS ≤ i → vd i = []) →
+          (∀ i, i < vw.w.nS → ∀ e ∈ vd i, w'.rowOfPhase i e.1 = some e.2.1 ∧ e.2.2 = (w'.strs i).tc) →
+          VInv ⟨w', vd⟩ := by
+        intro vd h1 h2
+        refine ⟨?_, fun i hi => h1 i (by simp at hi; omega)⟩
+        intro i hi e hmem
+        simp only at hmem ⊢
+        by_cases hio : i < vw.w.nS
+        · exact h2 i hio e hmem
+        · rw [h1 i (by omega)] at hmem; simp at hmem
+      cases o with
+      | unlink s =>
+        have hs : s < vw.w.nS := hids s (by simp [Op.ids])
+        have hw' : w' = vw.w.unlink s := by
+          simp [World.step, Op.ids, hs, World.exec] at hst; exact hst.symm
+        simp only [VWorld.after]
+        apply newEmpty
+        · intro i hi
+          have : i ≠ s := by omega
+          simp [upd_ne _ _ _ _ this, he i hi]
+        · intro i hi e hmem
+          by_cases his : i = s
+          · subst his
+            simp only [upd_same] at hmem
+            apply vinv_reattach (vw := vw) (w' := w') (rows := true) _ e hmem
+            intro e0 he0
+            obtain ⟨r', hr'⟩ := rowOfPhase_unlink vw.w i e0.1 e0.2.1 (hb i hi e0 he0).1
+            exact ⟨r', by rw [hw']; exact hr', fun h => by cases h⟩
+          · simp only [upd_ne _ _ _ _ his] at hmem
+            exact keep i hi (by simpa [Rebound] using his) e hmem
+      | link t s f p tp =>
+        have ht : t < vw.w.nS := hids t (by simp [Op.ids])
+        have hs : s < vw.w.nS := hids s (by simp [Op.ids])
+        have hl : vw.w.link t s f p tp = .ok w' := by
+          simpa [World.step, Op.ids, ht, hs, World.exec] using hst
+        obtain ⟨hk1, hk2⟩ := link_target_tc vw.w t s f p tp w' hl
+        -- streams other than the target
+        have others : ∀ i, i < vw.w.nS → i ≠ t → ∀ e ∈ vw.vdict i,
+            w'.rowOfPhase i e.1 = some e.2.1 ∧ e.2.2 = (w'.strs i).tc := by
+          intro i hi hit e hmem
+          apply keep i hi _ e hmem
+          simp only [Rebound, not_or, not_and]
+          refine ⟨hit, fun hf himol => ?_⟩
+          apply hna
+          exact ⟨hf, i, hi, hit, himol, by intro h0; rw [h0] at hmem; simp at hmem⟩
+        simp only [VWorld.after]
+        split
+        · next hc =>
+          apply newEmpty
+          · intro i hi
+            have : i ≠ t := by omega
+            simp [upd_ne _ _ _ _ this, he i hi]
+          · intro i hi e hmem
+            by_cases hit : i = t
+            · subst hit
+              simp only [upd_same] at hmem
+              apply vinv_reattach (vw := vw) (w' := w') (rows := f) _ e hmem
+              intro e0 he0
+              exact rowOfPhase_link_target vw.w i s f p tp w' (hwf s hs) hl e0.1 e0.2.1 (hb i hi e0 he0).1
+            · simp only [upd_ne _ _ _ _ hit] at hmem
+              exact others i hi hit e hmem
+        · next hc =>
+          apply newEmpty _ he
+          intro i hi e hmem
+          by_cases hit : i = t
+          · subst hit
+            -- either the target is single-phase (no views) or nothing was selected that concerns the views
+            by_cases hmat : vw.w.isMat (vw.w.strs i).imol = true
+            · have hft : f = false ∧ tp = false := by
+                rw [hk1, hmat] at hc
+                cases f <;> cases tp <;> simp at hc ⊢
+              obtain ⟨r', h1, h2⟩ := rowOfPhase_link_target vw.w i s f p tp w' (hwf s hs) hl e.1 e.2.1
+                (hb i hi e hmem).1
+              rw [h2 hft.1] at h1
+              exact ⟨h1, by rw [hk2 ⟨hft.2, hft.1⟩]; exact (hb i hi e hmem).2⟩
+            · rw [chemEmpty i hi (by simpa using hmat)] at hmem; simp at hmem
+          · exact others i hi hit e hmem
+      | setPhase s q =>
+        have hs : s < vw.w.nS := hids s (by simp [Op.ids])
+        simp only [VWorld.after]
+        split
+        · apply newEmpty
+          · intro i hi
+            have : i ≠ s := by omega
+            simp [upd_ne _ _ _ _ this, he i hi]
+          · intro i hi e hmem
+            by_cases his : i = s
+            · subst his; simp at hmem
+            · simp only [upd_ne _ _ _ _ his] at hmem
+              exact keep i hi (by simpa [Rebound] using his) e hmem
+        · next hc =>
+          apply newEmpty _ he
+          intro i hi e hmem
+          by_cases his : i = s
+          · subst his
+            rw [chemEmpty i hi (by simpa using hc)] at hmem; simp at hmem
+          · exact keep i hi (by simpa [Rebound] using his) e hmem
+      | copyLike t s =>
+        have ht : t < vw.w.nS := hids t (by simp [Op.ids])
+        simp only [VWorld.after]
+        have base : ∀ i, i < vw.w.nS → ∀ e ∈ vw.vdict i,
+            w'.rowOfPhase i e.1 = some e.2.1 ∧ e.2.2 = (w'.strs i).tc := by
+          intro i hi e hmem
+          by_cases hR : Rebound vw.w (.copyLike t s) i
+          · obtain ⟨rfl, hc⟩ := hR
+            rw [chemEmpty i hi hc] at hmem; simp at hmem
+          · exact keep i hi hR e hmem
+        split
+        · apply newEmpty
+          · intro i hi
+            have : i ≠ t := by omega
+            simp [upd_ne _ _ _ _ this, he i hi]
+          · intro i hi e hmem
+            by_cases hit : i = t
+            · subst hit; simp at hmem
+            · simp only [upd_ne _ _ _ _ hit] at hmem
+              exact base i hi e hmem
+        · exact newEmpty _ he base
+      | new a => exact newEmpty _ he (fun i hi e hm => keep i hi (by simp [Rebound]) e hm)
+      | setFlow s q c v => exact newEmpty _ he (fun i hi e hm => keep i hi (by simp [Rebound]) e hm)
+      | setT s v => exact newEmpty _ he (fun i hi e hm => keep i hi (by simp [Rebound]) e hm)
+      | setP s v => exact newEmpty _ he (fun i hi e hm => keep i hi (by simp [Rebound]) e hm)
+      | empty s => exact newEmpty _ he (fun i hi e hm => keep i hi (by simp [Rebound]) e hm)
+      | setPrice s v => exact newEmpty _ he (fun i hi e hm => keep i hi (by simp [Rebound]) e hm)
+      | setCF s k v => exact newEmpty _ he (fun i hi e hm => keep i hi (by simp [Rebound]) e hm)
+      | copy s => exact newEmpty _ he (fun i hi e hm => keep i hi (by simp [Rebound]) e hm)
+      | copyTo s pid pkg => exact newEmpty _ he (fun i hi e hm => keep i hi (by simp [Rebound]) e hm)
+      | copyTC t s => exact newEmpty _ he (fun i hi e hm => keep i hi (by simp [Rebound]) e hm)
+      | proxy s => exact newEmpty _ he (fun i hi e hm => keep i hi (by simp [Rebound]) e hm)
+      | flowProxy s => exact newEmpty _ he (fun i hi e hm => keep i hi (by simp [Rebound]) e hm)
+      | pickle s => exact newEmpty _ he (fun i hi e hm => keep i hi (by simp [Rebound]) e hm)
+
+
+/-- no operation of the history is the left-out situation (checked along the run) -/
+def NoAliasRelink (vw : VWorld) : List VOp → Prop
+  | [] => True
+  | op :: ops =>
+    ¬ AliasRelink vw op ∧
+    match vw.step op with
+    | .ok vw' => NoAliasRelink vw' ops
+    | .skip => NoAliasRelink vw ops
+    | .err _ => True
+
+theorem vstep_world (vw : VWorld) (op : VOp) (vw' : VWorld) (h : vw.step op = .ok vw') :
+    (∃ o, op = .op o ∧ vw.w.step o = .ok vw'.w) ∨ vw'.w = vw.w := by
+  cases op with
+  | view i p =>
+    right
+    simp only [VWorld.step] at h
+    split at h
+    · cases hv : vw.view i p with
+      | none => simp [hv] at h
+      | some x =>
+        simp [hv] at h; subst h
+        unfold VWorld.view at hv
+        split at hv
+        · cases hv
+        · split at hv <;> cases hv <;> rfl
+    · cases h
+  | op o =>
+    left
+    simp only [VWorld.step] at h
+    cases hst : vw.w.step o with
+    | skip => simp [hst] at h
+    | err e => simp [hst] at h
+    | ok w' =>
+      simp [hst] at h; subst h
+      refine ⟨o, rfl, ?_⟩
+      cases o <;> simp only [VWorld.after] <;> (try split) <;> exact hst
+
+theorem vinv_run (l : List VOp) : ∀ vw : VWorld, Scoped vw.w → WFAll vw.w → VInv vw → NoAliasRelink vw l →
+    VInv (vw.run l) ∧ Scoped (vw.run l).w ∧ WFAll (vw.run l).w := by
+  induction l with
+  | nil => intro vw a b c _; exact ⟨c, a, b⟩
+  | cons op ops ih =>
+    intro vw hsc hwf hinv hno
+    simp only [NoAliasRelink] at hno
+    simp only [VWorld.run]
+    cases hst : vw.step op with
+    | skip => rw [hst] at hno; exact ih vw hsc hwf hinv hno.2
+    | err e => exact ⟨hinv, hsc, hwf⟩
+    | ok vw' =>
+      rw [hst] at hno
+      have hv := vinv_step vw op vw' hsc hwf hinv hno.1 hst
+      rcases vstep_world vw op vw' hst with ⟨o, _, ho⟩ | hw
+      · exact ih vw' (scoped_step _ o _ hsc ho) (wfAll_step _ o _ hsc hwf ho) hv hno.2
+      · exact ih vw' (by rw [hw]; exact hsc) (by rw [hw]; exact hwf) hv hno.2
+
+theorem vinv_init : VInv VWorld.init := by
+  constructor
+  · intro i hi; simp [VWorld.init, World.init] at hi
+  · intro i _; rfl
+
+
 end ThermoVerif.Links
